@@ -65,7 +65,14 @@ type RegOpts struct {
 	Erc20Native bool
 	Staking     bool
 	Whitelist   []int // indices of accounts
+	ManyDenoms  int   // additional bank denominations ManyDenom(0..n-1) with positive supply
 }
+
+// ManyDeployer is the whitelisted deployer of the "many contracts" scenario.
+var ManyDeployer = chain.NewAcct("wmany")
+
+// ManyDenom is the i-th additional denomination of the "many contracts" scenario.
+func ManyDenom(i int) string { return fmt.Sprintf("many%03d", i) }
 
 // NewRegChain builds the chain of a registry scenario.
 func NewRegChain(o RegOpts) *chain.Chain {
@@ -79,8 +86,17 @@ func NewRegChain(o RegOpts) *chain.Chain {
 	}
 	holder := chain.NewAcct("holder3")
 	co.ExtraAccts = []authtypes.GenesisAccount{authtypes.NewBaseAccount(holder.Acc(), nil, 0, 0), authtypes.NewBaseAccount(ProberAcct.Acc(), nil, 0, 0)}
-	co.ExtraBals = []banktypes.Balance{{Address: holder.Acc().String(), Coins: sdk.NewCoins(sdk.NewInt64Coin(DenomThree, 77))},
-		{Address: ProberAcct.Acc().String(), Coins: sdk.NewCoins(sdk.NewInt64Coin(chain.Denom, 1_000_000_000_000_000))}}
+	held := sdk.NewCoins(sdk.NewInt64Coin(DenomThree, 77))
+	for i := 0; i < o.ManyDenoms; i++ {
+		held = held.Add(sdk.NewInt64Coin(ManyDenom(i), 5))
+	}
+	if o.ManyDenoms > 0 { // a whitelisted deployer rich enough to pay for more than a hundred deployments (never logged)
+		co.CpcWhitelist = append(co.CpcWhitelist, ManyDeployer.Acc().String())
+		co.ExtraAccts = append(co.ExtraAccts, authtypes.NewBaseAccount(ManyDeployer.Acc(), nil, 0, 0))
+		co.ExtraBals = append(co.ExtraBals, banktypes.Balance{Address: ManyDeployer.Acc().String(), Coins: sdk.NewCoins(sdk.NewInt64Coin(chain.Denom, 10_000_000_000_000))})
+	}
+	co.ExtraBals = append(co.ExtraBals, banktypes.Balance{Address: holder.Acc().String(), Coins: held},
+		banktypes.Balance{Address: ProberAcct.Acc().String(), Coins: sdk.NewCoins(sdk.NewInt64Coin(chain.Denom, 1_000_000_000_000_000))})
 	co.Patch = GovPatch
 	return chain.New(co)
 }
